@@ -96,7 +96,7 @@ def build_model(mr, ns, variant=0):
     for k, v in params.items():
         m.create_parameter(k, v)
     for j, ru in enumerate(mr["rules"]):
-        eq = "%s = %s" % (sname(ru["target"]), render(ru["rhs"], pw))
+        eq = "%s = %s" % (ru["tpar"] if ru.get("tpar") else sname(ru["target"]), render(ru["rhs"], pw))
         m.create_rule(ru["type"], {"equation": eq}, rule_frequency=freq_str(ru["freq"], variant))
         if ru["haspar"]:
             m.create_parameter("c_rule%d" % j, f(ru["pval"]))
@@ -198,17 +198,31 @@ def project(m, ns, probes, ruletimes):
         eq = attrs.get("equation", "")
         rules.append({"type": rtype, "target": eq.split("=")[0].strip(), "freq": list(freq_class(fq)), "raw": [rtype, eq, str(fq)]})
     out["rules"] = rules
-    fx = []
+    # effect of the rule list: species, parameters and the deterministic rates read afterwards.  A rule on a
+    # parameter writes into the model's own parameter vector: it is restored after every probe.
+    live = itf.py_get_param_values()
+    p2i = m.get_params2index()
+    fx, fxp, fxr = [], [], []
     for pr in probes:
-        row = []
+        row, rowp, rowr = [], [], []
         for rtm in ruletimes:
             x = np.zeros(ns)
             for i, s in enumerate(names):
                 x[s2i[s]] = f(pr["x"][i])
-            itf.py_apply_repeated_rules(x, f(rtm["t"]), bool(rtm["step"]))
-            row.append([float(x[s2i[s]]) for s in names])
+            try:
+                itf.py_apply_repeated_rules(x, f(rtm["t"]), bool(rtm["step"]))
+                row.append([float(x[s2i[s]]) for s in names])
+                rowp.append({k: float(live[j]) for k, j in p2i.items() if not k.startswith("DummyVar_")})
+                rowr.append([float(v) for v in itf.py_verif_propensities("det", x.copy(), f(pr["V"]), 0.0)])
+            finally:
+                np.copyto(live, pv0)
         fx.append(row)
-    out["rulefx"] = fx
+        fxp.append(rowp)
+        fxr.append(rowr)
+    out["rulefx"], out["rulefxp"], out["rulefxr"] = fx, fxp, fxr
+    after = {k: float(v) for k, v in m.get_parameter_dictionary().items()}
+    if after != pd:
+        raise RuntimeError("harness: parameter vector not restored after the rule probes")
     return out
 
 
@@ -261,12 +275,19 @@ def compare_sem(obs, sem, ns, mr):
             es = freq_class_spec(e["freq"])
             if o["freq"][0] != es[0] or not close(o["freq"][1], es[1]):
                 bad.append(("rule-frequency", fk, "rule %d frequency %r, expected %r" % (j, o["raw"][2], es)))
-    ctx = "+".join(sorted({"%s/%s" % (ru["type"], ru["freq"]["kind"]) for ru in mr["rules"]})) or "none"
+    ctx = "+".join(sorted({"%s/%s/%s" % (ru["type"], "parameter" if ru.get("tpar") else "species", ru["freq"]["kind"]) for ru in mr["rules"]})) or "none"
     for i in range(len(sem["rulefx"])):
         for t in range(len(sem["rulefx"][i])):
             for s in range(ns):
                 if not close(obs["rulefx"][i][t][s], f(sem["rulefx"][i][t][s])):
                     bad.append(("rule-effect", ctx, "probe %d time-probe %d: %s = %r, expected %r" % (i, t, names[s], obs["rulefx"][i][t][s], f(sem["rulefx"][i][t][s]))))
+            ep = sem["rulefxp"][i][t] if isinstance(sem["rulefxp"][i][t], dict) else {}
+            for k, v in ep.items():
+                if not close(obs["rulefxp"][i][t].get(k), f(v)):
+                    bad.append(("rule-effect-parameter", ctx, "probe %d time-probe %d: parameter %s = %r after the rules, expected %r" % (i, t, k, obs["rulefxp"][i][t].get(k), f(v))))
+            for r in range(nr):
+                if not close(obs["rulefxr"][i][t][r], f(sem["rulefxr"][i][t][r])):
+                    bad.append(("rule-effect-rate", ctx, "probe %d time-probe %d: rate of reaction %d after the rules = %r, expected %r" % (i, t, r, obs["rulefxr"][i][t][r], f(sem["rulefxr"][i][t][r]))))
     return bad
 
 
